@@ -59,7 +59,7 @@ func init() {
 			"Total-size pruning of old WAL files (checkTotalSizeLimit) is switched off; writer restarts on an existing log are not generated.",
 			"CRC32C detects every single-byte change; the oracle does not rely on it, but an undetected change that decodes to an unwritten message would be reported as a violation (probability 2^-32 per length-field change).",
 		},
-		QuickRuns: 240, QuickBudget: 55 * time.Second,
+		QuickRuns: 176, QuickBudget: 55 * time.Second,
 		ThoroughRuns: 4000, ThoroughBudget: 18 * time.Minute,
 		RunsPerProcess: 60,
 		RunTimeout:     300 * time.Second,
@@ -294,7 +294,7 @@ func run(c *kernel.Ctx) {
 		budget /= 3 // every read of such a log moves ~100 KB
 	}
 	var nrec int
-	switch cfg.Pick(5, 4, 2) {
+	switch cfg.Pick(6, 4, 1) {
 	case 0:
 		nrec = cfg.Range(6, 25)
 	case 1:
@@ -346,17 +346,12 @@ func run(c *kernel.Ctx) {
 		}
 	}
 
-	scratch := os.Getenv("VERIF_SCRATCH")
-	if scratch == "" {
-		scratch = os.TempDir()
-	}
-	dir := filepath.Join(scratch, fmt.Sprintf("c14-%d", c.Tape.Seed()))
-	os.RemoveAll(dir)
-	if err := os.MkdirAll(dir, 0700); err != nil {
+	dir, err := runDir("c14", c.Tape.Seed())
+	if err != nil {
 		c.HarnessTrouble("scratch: %v", err)
 		return
 	}
-	defer os.RemoveAll(dir)
+	defer dropRunDir(dir)
 
 	st := &state{c: c, recs: recs, written: map[uint64]bool{}, stats: map[string]int{}}
 
